@@ -737,9 +737,8 @@ def _minimise_k(case, v):
 def _write_replay(seed, case, v):
     from . import main as M
 
-    os.makedirs(os.path.join(M.VERIF, "replays"), exist_ok=True)
     h = hashlib.sha256(json.dumps([case, v["k"], v["mode"], v["exc"]], sort_keys=True).encode()).hexdigest()[:10]
-    path = os.path.join(M.VERIF, "replays", f"C11-{seed}-{h}.json")
+    path = os.path.join(M.replay_dir(), f"C11-{seed}-{h}.json")
     doc = {"property": "C11", "kind": "c11", "seed": seed, "python": sys.version.split()[0],
            "case": case, "fault": {"k": v["k"], "mode": v["mode"], "exc": v["exc"], "site": v["site"]},
            "violation": {"invariant": "operands-after-fault", "details": v["details"]}}
@@ -751,9 +750,8 @@ def _write_replay(seed, case, v):
 def _write_badarg_replay(seed, bv):
     from . import main as M
 
-    os.makedirs(os.path.join(M.VERIF, "replays"), exist_ok=True)
     h = hashlib.sha256(json.dumps(bv, sort_keys=True).encode()).hexdigest()[:10]
-    path = os.path.join(M.VERIF, "replays", f"C11-{seed}-badarg-{h}.json")
+    path = os.path.join(M.replay_dir(), f"C11-{seed}-badarg-{h}.json")
     doc = {"property": "C11", "kind": "c11", "badarg": bv, "seed": seed,
            "violation": {"invariant": "badarg-changed-shape", "details": bv["details"]}}
     with open(path, "w") as f:
